@@ -400,6 +400,17 @@ func (r *runner) opPop() string {
 	if r.mgrBlocked {
 		return "refused"
 	}
+	if e.nWorkers > 0 {
+		live := 0
+		for _, w := range e.workers {
+			if w.state != "D" {
+				live++
+			}
+		}
+		if live >= e.nWorkers {
+			return "busy" // every worker of the pool is executing a task
+		}
+	}
 	pid, tasks, _ := e.tq.PeerTaskQueue.PopTasks(1)
 	if len(tasks) == 0 {
 		return "none"
@@ -863,7 +874,11 @@ func execCase(comp string, c reg.Case, out *reg.Out, autoAck int, baseline *runn
 			if len(op) > 6 {
 				maxPer = atoi(op[6])
 			}
-			r.e = newEngine(atoi(op[1]), uint64(atoi(op[2])), maxPer)
+			nw := 0
+			if len(op) > 7 {
+				nw = atoi(op[7])
+			}
+			r.e = newEngine(atoi(op[1]), uint64(atoi(op[2])), maxPer, nw)
 			r.leafLen, r.innLen, r.extLen = atoi(op[3]), atoi(op[4]), atoi(op[5])
 			ok := true
 			for p := 0; p < r.e.npeers && ok; p++ {
@@ -922,7 +937,15 @@ func (r *runner) compareBaseline(b *runner) {
 			continue
 		}
 		r.out.Cov("stall.other-peer-starved")
-		if r.sawMgrBlockedOn == 0 {
+		parked := 0
+		for _, w := range r.e.workers {
+			if w.state == "B" && w.peer == 0 {
+				parked++
+			}
+		}
+		if r.e.nWorkers > 0 && parked >= r.e.nWorkers && r.sawMgrBlockedOn != 0 {
+			r.fail("worker-pool-parked-on-peer-reservation", "request r%d of peer %d completes when peer 0 acknowledges its messages but not when peer 0 stalls: all %d task workers of the pool are parked in reservations of peer 0, none is left to execute another peer's task", id, cfg.peer, r.e.nWorkers)
+		} else if r.sawMgrBlockedOn == 0 {
 			r.fail("manager-blocked-on-peer-reservation", "request r%d of peer %d completes when peer 0 acknowledges its messages but not when peer 0 stalls: the response-manager goroutine is parked in AllocateBlockMemory for peer 0 (transaction executed inside a manager step), so no mailbox message of any peer is handled", id, cfg.peer)
 		} else {
 			r.fail("peer-starved-other", "request r%d of peer %d completes when peer 0 acknowledges its messages but not when peer 0 stalls, and the manager goroutine was not seen parked in an allocation for peer 0", id, cfg.peer)
